@@ -13,8 +13,12 @@ static long milli(double err, double bound) {
 
 static void run_tuner(Json& js, vh::Rng& rng, long budget) {
     for (long t = 0; t < budget; ++t) {
-        const int fs = (int)(rng.coin() ? rng.range(8, 64) : std::pow(10.0, 1 + 4 * rng.unif()));   // 8 .. 1e5
-        const int b = (int)(rng.coin() ? 1 : rng.range(2, 8));
+        int fs = (int)(rng.coin() ? rng.range(8, 64) : std::pow(10.0, 1 + 4 * rng.unif()));   // 8 .. 1e5
+        const bool top = rng.range(0, 5) == 0;   // the top of the range, where fs * fs no longer fits 32 bits
+        if (top) {
+            fs = (int)rng.range(65537, 100000);
+        }
+        const int b = (int)((rng.coin() || top) ? 1 : rng.range(2, 8));
         const long M = (long)b * fs;
         long a = rng.range(-(M / 2), M / 2);
         if (rng.range(0, 6) == 0) {
